@@ -64,53 +64,57 @@ Proof. apply map_app. Qed.
 (** ** The dataset write *)
 Section WriteAny.
   Variable eqf : version -> version -> bool.
+  Variable dm : dup_mode.
 
   Lemma batch_loop_incl es : forall snap w0 v,
-    In v (batch_loop eqf snap w0 es) -> In v w0 \/ In v es.
+    In v (batch_loop eqf dm snap w0 es) -> In v w0 \/ In v es.
   Proof.
     induction es as [|e es IH]; cbn; intros snap w0 v H; [auto|].
-    destruct (skip eqf snap w0 e).
+    destruct (skip eqf dm snap w0 e).
     - destruct (IH _ _ _ H); auto.
     - destruct (IH _ _ _ H) as [H1|H1]; [|auto].
       apply in_app_or in H1. destruct H1 as [H1|[<-|[]]]; auto.
   Qed.
 
   Lemma ds_write_prefix f es :
-    exists w, ds_write eqf f es = f ++ w /\ forall v, In v w -> In v es.
+    exists w, ds_write eqf dm f es = f ++ w /\ forall v, In v w -> In v es.
   Proof.
-    exists (batch_loop eqf f [] es). split; [reflexivity|].
+    exists (batch_loop eqf dm f [] es). split; [reflexivity|].
     intros v H. destruct (batch_loop_incl _ _ _ _ H) as [[]|]; assumption.
   Qed.
 
-  Lemma ds_write_nil f : ds_write eqf f [] = f.
+  Lemma ds_write_nil f : ds_write eqf dm f [] = f.
   Proof. unfold ds_write. cbn. apply app_nil_r. Qed.
 End WriteAny.
 
 Section WriteFull.
   Variable eqf : version -> version -> bool.
+  Variable dm : dup_mode.
   Hypothesis Heq : forall a b, eqf a b = true <-> a = b.
 
   (** the view after a batch = last write wins, whatever the batch loop skipped or doubled *)
   Lemma batch_loop_cur es : forall snap w0 i,
-    cur (snap ++ batch_loop eqf snap w0 es) i
+    cur (snap ++ batch_loop eqf dm snap w0 es) i
     = match cur es i with Some v => Some v | None => cur (snap ++ w0) i end.
   Proof.
     induction es as [|e es IH]; intros snap w0 i; [reflexivity|].
     cbn [batch_loop cur].
-    destruct (skip eqf snap w0 e) eqn:Hs.
+    destruct (skip eqf dm snap w0 e) eqn:Hs.
     - rewrite IH. destruct (cur es i) eqn:Ec; [reflexivity|].
       destruct (Z.eqb_spec (v_id e) i) as [<-|]; [|reflexivity].
-      unfold skip in Hs. apply andb_true_iff in Hs. destruct Hs as [H1 H2].
-      rewrite cur_app.
-      destruct (cur snap (v_id e)) as [s|]; [|discriminate]. apply Heq in H1. subst s.
-      destruct (cur w0 (v_id e)) as [l|]; [|reflexivity]. apply Heq in H2. now subst l.
+      unfold skip in Hs. rewrite cur_app. destruct dm.
+      + apply andb_true_iff in Hs. destruct Hs as [H1 H2].
+        destruct (cur snap (v_id e)) as [s|]; [|discriminate]. apply Heq in H1. subst s.
+        destruct (cur w0 (v_id e)) as [l|]; [|reflexivity]. apply Heq in H2. now subst l.
+      + destruct (cur w0 (v_id e)) as [l|]; [apply Heq in Hs; now subst l|].
+        destruct (cur snap (v_id e)) as [s|]; [|discriminate]. apply Heq in Hs. now subst s.
     - rewrite IH. destruct (cur es i) eqn:Ec; [reflexivity|].
       rewrite app_assoc, cur_app, cur_single.
       destruct (Z.eqb_spec (v_id e) i); reflexivity.
   Qed.
 
   Lemma ds_write_cur f es i :
-    cur (ds_write eqf f es) i = match cur es i with Some v => Some v | None => cur f i end.
+    cur (ds_write eqf dm f es) i = match cur es i with Some v => Some v | None => cur f i end.
   Proof. unfold ds_write. rewrite batch_loop_cur, app_nil_r. reflexivity. Qed.
 End WriteFull.
 
@@ -233,6 +237,7 @@ Qed.
 (** ** Token safety, one member *)
 Section Safe.
   Variable eqf : version -> version -> bool.
+  Variable dm : dup_mode.
   Hypothesis Heq : forall a b, eqf a b = true <-> a = b.
 
   Lemma safe1_zero src sink : safe1 src 0 sink.
@@ -250,10 +255,10 @@ Section Safe.
   Lemma safe1_write src t sink es :
     safe1 src t sink ->
     (forall v, In v es -> pending src t (v_id v) \/ ~ In (v_id v) (ids src)) ->
-    safe1 src t (ds_write eqf sink es).
+    safe1 src t (ds_write eqf dm sink es).
   Proof.
     intros [Hle Hs] Hes. split; [assumption|]. intros i Hi.
-    rewrite (ds_write_cur eqf Heq). destruct (cur es i) as [v|] eqn:E.
+    rewrite (ds_write_cur eqf dm Heq). destruct (cur es i) as [v|] eqn:E.
     - destruct (cur_some _ _ _ E) as [<- Hv]. destruct (Hes _ Hv); [now left | contradiction].
     - now apply Hs.
   Qed.
@@ -261,14 +266,14 @@ Section Safe.
   (** the page read at the token is written, then the token moves to [next] *)
   Lemma safe1_advance lo b src t sink page next :
     safe1 src t sink -> process_changes lo src t b = (page, next) ->
-    safe1 src next (ds_write eqf sink page) /\ t <= next.
+    safe1 src next (ds_write eqf dm sink page) /\ t <= next.
   Proof.
     intros [Hle Hs] Hp.
     destruct (process_changes_spec _ _ _ _ _ _ Hp) as (n & Hn & Hnle & _ & _ & Hin & Hcur).
     rewrite skipn_length in Hnle. split; [|lia]. split; [lia|].
     intros i Hi.
     destruct (in_dec Z.eq_dec i (ids (skipn next src))) as [Hp'|Hnp]; [now left|right].
-    rewrite (ds_write_cur eqf Heq). subst next. rewrite firstn_add, cur_app.
+    rewrite (ds_write_cur eqf dm Heq). subst next. rewrite firstn_add, cur_app.
     set (win := firstn n (skipn t src)) in *.
     destruct (in_dec Z.eq_dec i (ids win)) as [Hw|Hw].
     - rewrite (Hcur i Hw Hnp). destruct (cur_in _ _ Hw) as (w & ->). reflexivity.
@@ -285,7 +290,7 @@ Section Safe.
   (** the page is written but the token is not moved (death before the token store) *)
   Lemma safe1_page lo b src t t' sink page next :
     safe1 src t' sink -> t' <= t -> process_changes lo src t b = (page, next) ->
-    safe1 src t' (ds_write eqf sink page).
+    safe1 src t' (ds_write eqf dm sink page).
   Proof.
     intros Hs Hle Hp. apply safe1_write; [assumption|].
     intros v Hv. left. apply pending_mono with t; [assumption|].
@@ -313,9 +318,9 @@ Section Safe.
   (** sinks reachable by writing batches of versions that satisfy [P] *)
   Inductive wrote (P : version -> Prop) : feed -> feed -> Prop :=
   | wrote_refl s : wrote P s s
-  | wrote_step s es s' : (forall v, In v es -> P v) -> wrote P (ds_write eqf s es) s' -> wrote P s s'.
+  | wrote_step s es s' : (forall v, In v es -> P v) -> wrote P (ds_write eqf dm s es) s' -> wrote P s s'.
 
-  Lemma wrote_one (P : version -> Prop) s es : (forall v, In v es -> P v) -> wrote P s (ds_write eqf s es).
+  Lemma wrote_one (P : version -> Prop) s es : (forall v, In v es -> P v) -> wrote P s (ds_write eqf dm s es).
   Proof. intros H. eapply wrote_step; [exact H | apply wrote_refl]. Qed.
 
   Lemma wrote_trans P s1 s2 s3 : wrote P s1 s2 -> wrote P s2 s3 -> wrote P s1 s3.
@@ -335,17 +340,17 @@ Section Safe.
     wrote P s s' -> (forall v, P v -> v_id v <> i) -> cur s' i = cur s i.
   Proof.
     induction 1 as [|s es s' Hes _ IH]; [reflexivity|]. intros HP. rewrite (IH HP).
-    rewrite (ds_write_cur eqf Heq). destruct (cur es i) as [v|] eqn:E; [|reflexivity].
+    rewrite (ds_write_cur eqf dm Heq). destruct (cur es i) as [v|] eqn:E; [|reflexivity].
     destruct (cur_some _ _ _ E) as [Hid Hv]. exfalso. exact (HP v (Hes v Hv) Hid).
   Qed.
 
   (** *** the callback of the incremental pipeline *)
   Lemma proc_inc_cases {T} sink (stored : T) page newtok idx flt s t r :
-    proc_inc eqf sink stored page newtok idx flt = (s, t, r) ->
+    proc_inc eqf dm sink stored page newtok idx flt = (s, t, r) ->
     (s = sink /\ t = stored /\ r = Some OFailed /\ page <> [])
-    \/ (s = ds_write eqf sink page /\ t = stored /\ r = Some ODied)
-    \/ (s = ds_write eqf sink page /\ t = newtok /\ r <> None)
-    \/ (s = ds_write eqf sink page /\ t = newtok /\ r = None /\ page <> []).
+    \/ (s = ds_write eqf dm sink page /\ t = stored /\ r = Some ODied)
+    \/ (s = ds_write eqf dm sink page /\ t = newtok /\ r <> None)
+    \/ (s = ds_write eqf dm sink page /\ t = newtok /\ r = None /\ page <> []).
   Proof.
     unfold proc_inc. intros H.
     destruct (nonempty page && is_sinkfail flt idx) eqn:E1.
@@ -365,14 +370,14 @@ Section Safe.
   Qed.
 
   Lemma proc_inc_nofault {T} sink (stored : T) page newtok idx :
-    proc_inc eqf sink stored page newtok idx FNone
-    = (ds_write eqf sink page, newtok, if nonempty page then None else Some OOk).
+    proc_inc eqf dm sink stored page newtok idx FNone
+    = (ds_write eqf dm sink page, newtok, if nonempty page then None else Some OOk).
   Proof. unfold proc_inc. cbn. rewrite !andb_false_r. destruct page; reflexivity. Qed.
 
   (** *** DatasetSource, incremental *)
   Lemma inc_single_safe lo b src : forall fuel sink stored idx flt s t o,
     safe1 src (asincr stored) sink ->
-    inc_single fuel eqf lo b src sink stored idx flt = (s, t, o) ->
+    inc_single fuel eqf dm lo b src sink stored idx flt = (s, t, o) ->
     safe1 src (asincr t) s /\ wrote (fun v => In v src) sink s.
   Proof.
     induction fuel as [|fuel IH]; intros sink stored idx flt s t o Hs H; cbn [inc_single] in H.
@@ -382,7 +387,7 @@ Section Safe.
       { intros v Hv. eapply In_firstn with (n := length src).
         rewrite firstn_all. pose proof (page_in_src _ _ _ _ _ _ v Hp Hv) as Hin.
         rewrite <- (firstn_skipn (asincr stored) src). apply in_or_app. now right. }
-      destruct (proc_inc eqf sink stored page (Some next) idx flt) as [[s1 t1] r1] eqn:Hpi.
+      destruct (proc_inc eqf dm sink stored page (Some next) idx flt) as [[s1 t1] r1] eqn:Hpi.
       destruct (safe1_advance _ _ _ _ _ _ _ Hs Hp) as [Hadv Hle].
       pose proof (safe1_page _ _ _ _ _ _ _ _ Hs (le_n _) Hp) as Hpage.
       destruct (proc_inc_cases _ _ _ _ _ _ _ _ _ Hpi)
@@ -414,7 +419,7 @@ Section Safe.
   (** a fault-free run reads to the end of the feed *)
   Lemma inc_single_converge lo b src : forall fuel sink stored idx,
     safe1 src (asincr stored) sink -> length src - asincr stored < fuel ->
-    exists s, inc_single fuel eqf lo b src sink stored idx FNone = (s, Some (length src), OOk)
+    exists s, inc_single fuel eqf dm lo b src sink stored idx FNone = (s, Some (length src), OOk)
               /\ safe1 src (length src) s.
   Proof.
     induction fuel as [|fuel IH]; intros sink stored idx Hs Hf; [lia|].
@@ -435,7 +440,7 @@ Section Safe.
   (** nothing new: nothing is written and the token stays *)
   Lemma inc_single_idem lo b src fuel sink n idx :
     length src <= n -> 0 < fuel ->
-    inc_single fuel eqf lo b src sink (Some n) idx FNone = (sink, Some n, OOk).
+    inc_single fuel eqf dm lo b src sink (Some n) idx FNone = (sink, Some n, OOk).
   Proof.
     intros Hn Hf. destruct fuel as [|fuel]; [lia|]. cbn [inc_single asincr].
     unfold process_changes. rewrite (skipn_all2 src Hn). cbn [pc_loop].
@@ -444,11 +449,11 @@ Section Safe.
 
   (** *** DatasetSource, fullsync *)
   Lemma proc_full_cases sink page idx flt s r :
-    proc_full eqf sink page idx flt = (s, r) ->
+    proc_full eqf dm sink page idx flt = (s, r) ->
     (s = sink /\ r = Some OFailed /\ page <> [])
-    \/ (s = ds_write eqf sink page /\ (r = Some ODied \/ r = Some OFailed) /\ page <> [])
-    \/ (s = ds_write eqf sink page /\ r = Some OOk /\ page = [])
-    \/ (s = ds_write eqf sink page /\ r = None /\ page <> []).
+    \/ (s = ds_write eqf dm sink page /\ (r = Some ODied \/ r = Some OFailed) /\ page <> [])
+    \/ (s = ds_write eqf dm sink page /\ r = Some OOk /\ page = [])
+    \/ (s = ds_write eqf dm sink page /\ r = None /\ page <> []).
   Proof.
     unfold proc_full. intros H. destruct page as [|x page].
     - cbn in H. injection H as <- <-. right; right; left. auto.
@@ -460,8 +465,8 @@ Section Safe.
   Qed.
 
   Lemma proc_full_nofault sink page idx :
-    proc_full eqf sink page idx FNone
-    = (ds_write eqf sink page, if nonempty page then None else Some OOk).
+    proc_full eqf dm sink page idx FNone
+    = (ds_write eqf dm sink page, if nonempty page then None else Some OOk).
   Proof. unfold proc_full. cbn. rewrite !andb_false_r. destruct page; reflexivity. Qed.
 
   Lemma page_src lo b src t page next v :
@@ -487,7 +492,7 @@ Section Safe.
 
   Lemma full_single_spec lo b src : forall fuel sink mem seen idx flt s mem' seen' o,
     safe1 src (asincr mem) sink ->
-    full_single fuel eqf lo b src sink mem seen idx flt = (s, mem', seen', o) ->
+    full_single fuel eqf dm lo b src sink mem seen idx flt = (s, mem', seen', o) ->
     wrote (fun v => In v src) sink s
     /\ (forall i, In i seen -> In i seen')
     /\ (forall i, In i seen' -> In i seen \/ In i (ids src))
@@ -497,7 +502,7 @@ Section Safe.
     induction fuel as [|fuel IH]; intros sink mem seen idx flt s mem' seen' o Hs H; cbn [full_single] in H.
     - injection H as <- <- <- <-. repeat split; auto using wrote_refl; discriminate.
     - destruct (process_changes lo src (asincr mem) b) as [page next] eqn:Hp.
-      destruct (proc_full eqf sink page idx flt) as [s1 r1] eqn:Hpf.
+      destruct (proc_full eqf dm sink page idx flt) as [s1 r1] eqn:Hpf.
       destruct (safe1_advance _ _ _ _ _ _ _ Hs Hp) as [Hadv Hle].
       assert (Hpg : forall v, In v page -> In v src) by (intros v; eapply page_src; eauto).
       assert (Hseen : forall i, In i (seen ++ ids page) -> In i seen \/ In i (ids src)).
@@ -560,13 +565,13 @@ Section Safe.
   Qed.
 
   Lemma complete_cur s seen i :
-    cur (complete eqf s seen) i
+    cur (complete eqf dm s seen) i
     = match cur s i with
       | Some v => if negb (v_del v) && negb (zmem i seen) then Some (set_del v) else Some v
       | None => None
       end.
   Proof.
-    unfold complete. rewrite (ds_write_cur eqf Heq). unfold unseen_live.
+    unfold complete. rewrite (ds_write_cur eqf dm Heq). unfold unseen_live.
     set (g := fun j => match cur s j with
                        | Some v => if negb (v_del v) && negb (zmem j seen) then [set_del v] else []
                        | None => [] end).
@@ -587,7 +592,7 @@ Section Safe.
       now rewrite (H2 Hin).
   Qed.
 
-  Lemma complete_wrote s seen : wrote (fun v => ~ In (v_id v) seen) s (complete eqf s seen).
+  Lemma complete_wrote s seen : wrote (fun v => ~ In (v_id v) seen) s (complete eqf dm s seen).
   Proof.
     apply wrote_one. intros v Hv. unfold unseen_live in Hv. apply in_flat_map in Hv.
     destruct Hv as (j & _ & Hv). destruct (cur s j) as [w|] eqn:E; [|destruct Hv].
@@ -635,6 +640,7 @@ Qed.
 
 Section Union.
   Variable eqf : version -> version -> bool.
+  Variable dm : dup_mode.
   Hypothesis Heq : forall a b, eqf a b = true <-> a = b.
   Variable owner : Z -> nat.
   Variables (los : list bool) (b : nat) (srcs : list feed).
@@ -644,17 +650,17 @@ Section Union.
   Lemma union_iter sink mem a page next :
     a < length srcs -> safeK srcs mem sink ->
     process_changes (nth a los false) (nth a srcs []) (asincr (nth a mem None)) b = (page, next) ->
-    safeK srcs (upd a (Some next) mem) (ds_write eqf sink page)
+    safeK srcs (upd a (Some next) mem) (ds_write eqf dm sink page)
     /\ asincr (nth a mem None) <= next
     /\ (forall stored, safeK srcs stored sink ->
           (forall k, asincr (nth k stored None) <= asincr (nth k mem None)) ->
-          safeK srcs stored (ds_write eqf sink page)).
+          safeK srcs stored (ds_write eqf dm sink page)).
   Proof.
     intros Ha [Hlen Hs] Hp.
-    destruct (safe1_advance eqf Heq _ _ _ _ _ _ _ (Hs a Ha) Hp) as [Hadv Hle].
+    destruct (safe1_advance eqf dm Heq _ _ _ _ _ _ _ (Hs a Ha) Hp) as [Hadv Hle].
     assert (Hother : forall k t, k <> a -> safe1 (nth k srcs []) t sink ->
-                                 safe1 (nth k srcs []) t (ds_write eqf sink page)).
-    { intros k t Hk H1. apply (safe1_write eqf Heq); [assumption|]. intros v Hv. right.
+                                 safe1 (nth k srcs []) t (ds_write eqf dm sink page)).
+    { intros k t Hk H1. apply (safe1_write eqf dm Heq); [assumption|]. intros v Hv. right.
       apply (owned_other owner srcs a k); auto. eapply page_src; eauto. }
     split; [|split; [assumption|]].
     - split; [now rewrite upd_length|]. intros k Hk. destruct (Nat.eq_dec k a) as [->|Hka].
@@ -662,7 +668,7 @@ Section Union.
       + rewrite nth_upd_neq by congruence. apply Hother; auto.
     - intros stored [Hl2 Hs2] Hle2. split; [assumption|]. intros k Hk.
       destruct (Nat.eq_dec k a) as [->|Hka].
-      + eapply (safe1_page eqf Heq); eauto.
+      + eapply (safe1_page eqf dm Heq); eauto.
       + apply Hother; auto.
   Qed.
 
@@ -687,7 +693,7 @@ Section Union.
     a < length srcs ->
     safeK srcs stored sink -> safeK srcs mem sink ->
     (forall k, asincr (nth k stored None) <= asincr (nth k mem None)) ->
-    inc_union fuel eqf los b srcs sink stored mem a idx flt = (s, t, o) ->
+    inc_union fuel eqf dm los b srcs sink stored mem a idx flt = (s, t, o) ->
     safeK srcs t s.
   Proof.
     induction fuel as [|fuel IH]; intros sink stored mem a idx flt s t o Ha Hst Hmem Hle H;
@@ -705,8 +711,8 @@ Section Union.
         - rewrite nth_upd_eq by lia. cbn. specialize (Hle a). lia.
         - rewrite nth_upd_neq by congruence. apply Hle. }
       destruct (nonempty page || negb keep) eqn:Hc.
-      + destruct (proc_inc eqf sink stored page (upd a (Some next) mem) idx flt) as [[s1 t1] r1] eqn:Hpi.
-        destruct (proc_inc_cases _ _ _ _ _ _ _ _ _ _ Hpi)
+      + destruct (proc_inc eqf dm sink stored page (upd a (Some next) mem) idx flt) as [[s1 t1] r1] eqn:Hpi.
+        destruct (proc_inc_cases _ _ _ _ _ _ _ _ _ _ _ Hpi)
           as [(-> & -> & -> & _)|[(-> & -> & ->)|[(-> & -> & Hr)|(-> & -> & -> & _)]]].
         * injection H as <- <- <-. assumption.
         * injection H as <- <- <-. assumption.
@@ -741,7 +747,7 @@ Section Union.
     a < length srcs -> safeK srcs mem sink ->
     (forall k, k < a -> nth k mem None = Some (length (nth k srcs []))) ->
     umu mem a < fuel ->
-    exists s t, inc_union fuel eqf los b srcs sink stored mem a idx FNone = (s, t, OOk)
+    exists s t, inc_union fuel eqf dm los b srcs sink stored mem a idx FNone = (s, t, OOk)
                 /\ at_end srcs t.
   Proof.
     induction fuel as [|fuel IH]; intros sink stored mem a idx Ha Hmem Hdone Hf; [lia|].
@@ -802,7 +808,7 @@ Section Union.
   Lemma full_union_spec : forall fuel sink mem seen a idx flt s mem' seen' o,
     a < length srcs -> safeK srcs mem sink ->
     (forall k, k < a -> nth k mem None = Some (length (nth k srcs []))) ->
-    full_union fuel eqf los b srcs sink mem seen a idx flt = (s, mem', seen', o) ->
+    full_union fuel eqf dm los b srcs sink mem seen a idx flt = (s, mem', seen', o) ->
     (forall i, In i seen -> In i seen')
     /\ (forall i, In i seen' -> In i seen \/ exists k, k < length srcs /\ In i (ids (nth k srcs [])))
     /\ (o = OOk -> safeK srcs mem' s /\ at_end srcs mem'
@@ -832,8 +838,8 @@ Section Union.
           assert (asincr (nth a mem None) < next) by (apply Hlt; discriminate). lia. }
         split; [assumption|]. rewrite <- Et. now apply He. }
       destruct (nonempty page || negb keep) eqn:Hc.
-      + destruct (proc_full eqf sink page idx flt) as [s1 r1] eqn:Hpf.
-        destruct (proc_full_cases eqf _ _ _ _ _ _ Hpf)
+      + destruct (proc_full eqf dm sink page idx flt) as [s1 r1] eqn:Hpf.
+        destruct (proc_full_cases eqf dm _ _ _ _ _ _ Hpf)
           as [(-> & -> & _)|[(-> & Hr & _)|[(-> & -> & ->)|(-> & -> & Hne)]]].
         * injection H as <- <- <- <-. repeat split; auto; discriminate.
         * destruct Hr as [-> | ->]; injection H as <- <- <- <-; (repeat split; auto; discriminate).
@@ -942,6 +948,7 @@ Section Runs.
   Hypothesis Hv : vm_eq v = EqFull.
 
   Let eqf := weq (vm_eq v).
+  Let dm := vm_dup v.
   Lemma Heqf : forall a b, eqf a b = true <-> a = b.
   Proof. unfold eqf. rewrite Hv. apply weq_full. Qed.
 
@@ -960,19 +967,19 @@ Section Runs.
     run_job v st r = (st', o) -> good owner n st'.
   Proof.
     intros (Hn & Hown & Hts) (Hb & Hn1 & Hsingle) Hfull H.
-    unfold run_job in H. rewrite Hfull in H. fold eqf in H.
+    unfold run_job in H. rewrite Hfull in H. fold eqf dm in H.
     destruct Hts as [Hlen Hs].
     destruct (r_union r) eqn:Hu.
     - destruct (inc_union _ _ _ _ _ _ _ _ _ _ _) as [[s t] o1] eqn:Hrun in H.
       injection H as <- <-.
       assert (Ha : 0 < length (st_srcs st)) by lia.
-      pose proof (inc_union_safe eqf Heqf owner (r_los r) (r_b r) (st_srcs st) Hown _ _ _ _ _ _ _ _ _ _
+      pose proof (inc_union_safe eqf dm Heqf owner (r_los r) (r_b r) (st_srcs st) Hown _ _ _ _ _ _ _ _ _ _
                     Ha (conj Hlen Hs) (conj Hlen Hs) (fun k => le_n _) Hrun) as Hres.
       split; [exact Hn|]. split; [exact Hown|]. exact Hres.
     - destruct (inc_single _ _ _ _ _ _ _ _ _) as [[s t] o1] eqn:Hrun in H.
       injection H as <- <-.
       assert (Hn' : length (st_srcs st) = 1) by (rewrite Hn; now apply Hsingle).
-      destruct (inc_single_safe eqf Heqf _ _ _ _ _ _ _ _ _ _ _ (Hs 0 ltac:(lia)) Hrun) as [Hres _].
+      destruct (inc_single_safe eqf dm Heqf _ _ _ _ _ _ _ _ _ _ _ (Hs 0 ltac:(lia)) Hrun) as [Hres _].
       split; [exact Hn|]. split; [exact Hown|].
       apply (safeK_single (st_srcs st) (st_tok st) s t); auto; lia.
   Qed.
@@ -995,11 +1002,11 @@ Section Runs.
     destruct (run_job v st r) as [st' o] eqn:Hrun.
     pose proof (run_inc_safe _ _ _ _ Hg Hwf Hfull Hrun) as Hg'.
     destruct Hg as (Hn & Hown & Hts). destruct Hwf as (Hb & Hn1 & Hsingle).
-    unfold run_job in Hrun. rewrite Hfull, Hflt in Hrun. fold eqf in Hrun.
+    unfold run_job in Hrun. rewrite Hfull, Hflt in Hrun. fold eqf dm in Hrun.
     destruct Hts as [Hlen Hs].
     destruct (r_union r) eqn:Hu.
     - assert (Ha : 0 < length (st_srcs st)) by lia.
-      destruct (inc_union_converge eqf Heqf owner (r_los r) (r_b r) (st_srcs st) Hown
+      destruct (inc_union_converge eqf dm Heqf owner (r_los r) (r_b r) (st_srcs st) Hown
                   (fuel_of (st_srcs st)) (st_sink st) (st_tok st) (st_tok st) 0 0 Ha (conj Hlen Hs))
         as (s & t & Hrun' & Hend).
       { intros k Hk. lia. }
@@ -1008,7 +1015,7 @@ Section Runs.
       split; [reflexivity|]. split; [reflexivity|]. split; [|exact Hg'].
       apply at_end_converged; [exact Hend | apply Hg'].
     - assert (Hn' : length (st_srcs st) = 1) by (rewrite Hn; now apply Hsingle).
-      destruct (inc_single_converge eqf Heqf (nth 0 (r_los r) false) (r_b r) (nth 0 (st_srcs st) [])
+      destruct (inc_single_converge eqf dm Heqf (nth 0 (r_los r) false) (r_b r) (nth 0 (st_srcs st) [])
                   (fuel_of (st_srcs st)) (st_sink st) (nth 0 (st_tok st) None) 0 (Hs 0 ltac:(lia)))
         as (s & Hrun' & Hsafe).
       { pose proof (nth_le_total (st_srcs st) 0). unfold fuel_of. lia. }
@@ -1024,28 +1031,28 @@ Section Runs.
   Lemma complete_safeK srcs toks s seen :
     safeK srcs toks s ->
     (forall k i, k < length srcs -> In i (ids (nth k srcs [])) -> In i seen) ->
-    safeK srcs toks (complete eqf s seen).
+    safeK srcs toks (complete eqf dm s seen).
   Proof.
     intros [Hl Hs] Hseen. split; [assumption|]. intros k Hk.
-    apply (wrote_safe1 eqf Heqf) with s; [|now apply Hs].
+    apply (wrote_safe1 eqf dm Heqf) with s; [|now apply Hs].
     eapply wrote_weaken; [|apply complete_wrote]. cbn. intros w Hw Hc. apply Hw. eauto.
   Qed.
 
   Lemma complete_foreign srcs s seen :
     (forall i, In i seen -> exists k, k < length srcs /\ In i (ids (nth k srcs []))) ->
     forall i, (forall k, ~ In i (ids (nth k srcs []))) ->
-      match cur (complete eqf s seen) i with Some w => v_del w = true | None => True end.
+      match cur (complete eqf dm s seen) i with Some w => v_del w = true | None => True end.
   Proof.
-    intros Hseen i Hi. rewrite (complete_cur eqf Heqf).
+    intros Hseen i Hi. rewrite (complete_cur eqf dm Heqf).
     destruct (cur s i) as [w|]; [|exact I].
     assert (Hz : zmem i seen = false).
     { apply zmem_false. intros Hc. destruct (Hseen i Hc) as (k & _ & Hk). exact (Hi k Hk). }
     rewrite Hz. destruct (v_del w) eqn:D; cbn; [exact D | reflexivity].
   Qed.
 
-  Lemma complete_seen_cur s seen i : In i seen -> cur (complete eqf s seen) i = cur s i.
+  Lemma complete_seen_cur s seen i : In i seen -> cur (complete eqf dm s seen) i = cur s i.
   Proof.
-    intros Hi. rewrite (complete_cur eqf Heqf). apply zmem_In in Hi. rewrite Hi.
+    intros Hi. rewrite (complete_cur eqf dm Heqf). apply zmem_In in Hi. rewrite Hi.
     destruct (cur s i) as [w|]; [|reflexivity]. now rewrite andb_false_r.
   Qed.
 
@@ -1056,27 +1063,27 @@ Section Runs.
     st_srcs st' = st_srcs st /\ converged st' /\ foreign_deleted st' /\ good owner n st'.
   Proof.
     intros Hn Hnt Hown (Hb & Hn1 & Hsingle) Hfull H.
-    unfold run_job in H. rewrite Hfull in H. fold eqf in H.
+    unfold run_job in H. rewrite Hfull in H. fold eqf dm in H.
     destruct (r_union r) eqn:Hu.
     - destruct (full_union _ _ _ _ _ _ _ _ _ _ _) as [[[s mem] seen] o1] eqn:Hrun in H.
       destruct o1; try (injection H as _ H; discriminate). injection H as <-.
       assert (Ha : 0 < length (st_srcs st)) by lia.
-      destruct (full_union_spec eqf Heqf owner (r_los r) (r_b r) (st_srcs st) Hown _ _ _ _ _ _ _ _ _ _ _
+      destruct (full_union_spec eqf dm Heqf owner (r_los r) (r_b r) (st_srcs st) Hown _ _ _ _ _ _ _ _ _ _ _
                   Ha (safeK_none _ _) ltac:(intros k Hk; lia) Hrun) as (_ & M2 & Hok).
       destruct (Hok eq_refl) as (S1 & S2 & S3).
       assert (Hseen : forall k i, k < length (st_srcs st) -> In i (ids (nth k (st_srcs st) [])) -> In i seen).
       { intros k i Hk Hi. apply (S3 k i); [lia|]. now rewrite nth_none_tokens. }
-      assert (Hts : token_safe (mkSt (st_srcs st) (complete eqf s seen) mem)).
+      assert (Hts : token_safe (mkSt (st_srcs st) (complete eqf dm s seen) mem)).
       { apply complete_safeK; assumption. }
       split; [reflexivity|]. split; [|split].
-      + exact (at_end_converged (mkSt (st_srcs st) (complete eqf s seen) mem) S2 Hts).
+      + exact (at_end_converged (mkSt (st_srcs st) (complete eqf dm s seen) mem) S2 Hts).
       + intros i Hi. cbn [st_sink st_srcs] in *. apply (complete_foreign (st_srcs st)); [|assumption].
         intros j Hj. destruct (M2 j Hj) as [[]|]; assumption.
       + split; [exact Hn|]. split; [exact Hown | exact Hts].
     - destruct (full_single _ _ _ _ _ _ _ _ _ _) as [[[s mem] seen] o1] eqn:Hrun in H.
       destruct o1; try (injection H as _ H; discriminate). injection H as <-.
       assert (Hn' : length (st_srcs st) = 1) by (rewrite Hn; now apply Hsingle).
-      destruct (full_single_spec eqf Heqf _ _ _ _ _ None _ _ _ _ _ _ _ (safe1_zero _ _) Hrun)
+      destruct (full_single_spec eqf dm Heqf _ _ _ _ _ None _ _ _ _ _ _ _ (safe1_zero _ _) Hrun)
         as (_ & _ & M2 & Hok).
       destruct (Hok eq_refl) as (S1 & -> & S3). cbn [asincr skipn] in S3.
       pose proof (single_srcs _ Hn') as Esrc.
@@ -1084,14 +1091,14 @@ Section Runs.
       assert (Hseen : forall k i, k < length (st_srcs st) -> In i (ids (nth k (st_srcs st) [])) -> In i seen).
       { intros k i Hk Hi. assert (k = 0) by lia. subst k. now apply S3. }
       split; [reflexivity|].
-      assert (Hfor : foreign_deleted (mkSt (st_srcs st) (complete eqf s seen) tok')).
+      assert (Hfor : foreign_deleted (mkSt (st_srcs st) (complete eqf dm s seen) tok')).
       { intros i Hi. cbn [st_sink st_srcs] in *. apply (complete_foreign (st_srcs st)); [|assumption].
         intros j Hj. destruct (M2 j Hj) as [[]|Hj']. exists 0. split; [lia | exact Hj']. }
-      assert (Hts : token_safe (mkSt (st_srcs st) (complete eqf s seen) tok')).
+      assert (Hts : token_safe (mkSt (st_srcs st) (complete eqf dm s seen) tok')).
       { apply complete_safeK; [|assumption].
         apply (safeK_single (st_srcs st) (st_tok st) s); auto; lia. }
       split; [|split; [exact Hfor|]].
-      + apply (at_end_converged (mkSt (st_srcs st) (complete eqf s seen) tok')); [|exact Hts].
+      + apply (at_end_converged (mkSt (st_srcs st) (complete eqf dm s seen) tok')); [|exact Hts].
         cbn [st_srcs st_tok]. unfold tok'.
         split; [rewrite upd_length; lia|]. intros k Hk. assert (k = 0) by lia. subst k.
         now rewrite nth_upd_eq by lia.
@@ -1128,9 +1135,9 @@ Proof.
 Qed.
 
 (** *** re-running with nothing new changes nothing (any variant) *)
-Lemma inc_union_idem eqf los b srcs : forall fuel sink stored mem a idx,
+Lemma inc_union_idem eqf dm los b srcs : forall fuel sink stored mem a idx,
   at_end srcs mem -> a < length srcs -> length srcs - a <= fuel ->
-  inc_union fuel eqf los b srcs sink stored mem a idx FNone = (sink, mem, OOk).
+  inc_union fuel eqf dm los b srcs sink stored mem a idx FNone = (sink, mem, OOk).
 Proof.
   induction fuel as [|fuel IH]; intros sink stored mem a idx Hend Ha Hf; [lia|].
   destruct Hend as [Hl He]. cbn [inc_union]. rewrite (He a Ha). cbn [asincr].
@@ -1185,7 +1192,7 @@ Section Histories.
     good owner n (fst (step v st (OWrite k es))).
   Proof.
     intros (Hn & Hown & [Hl Hs]) [Hk Hes]. cbn [step fst].
-    destruct (ds_write_prefix (weq (vm_eq v)) (nth k (st_srcs st) []) es) as (w & Ew & Hw).
+    destruct (ds_write_prefix (weq (vm_eq v)) (vm_dup v) (nth k (st_srcs st) []) es) as (w & Ew & Hw).
     rewrite Ew. split; [cbn; rewrite upd_length; exact Hn|]. split.
     - intros j x Hx. cbn [st_srcs] in Hx. destruct (Nat.eq_dec j k) as [->|Hjk].
       + rewrite nth_upd_eq in Hx by lia. apply in_app_or in Hx. destruct Hx; [now apply Hown | auto].
@@ -1202,7 +1209,7 @@ Section Histories.
   Proof.
     intros (Hn & Hown & [Hl Hs]) Hes. cbn [step fst wf_op] in *.
     split; [exact Hn|]. split; [exact Hown|]. split; [exact Hl|]. cbn [st_srcs st_tok st_sink].
-    intros k Hk. apply (safe1_write _ (Heqf v Hv)); [now apply Hs|].
+    intros k Hk. apply (safe1_write _ (vm_dup v) (Heqf v Hv)); [now apply Hs|].
     intros x Hx. right. intros Hc. destruct (In_ids_inv _ _ Hc) as (y & Hy & E).
     apply Hown in Hy. specialize (Hes x Hx). rewrite <- E in Hes. lia.
   Qed.
@@ -1293,9 +1300,9 @@ Definition h_eqlen : list op :=
 
 Lemma refuted_eqlen :
   Forall (wf_op own0 1) h_eqlen
-  /\ map snd (exec (mkVar EqLen FsReset) (init_state 1) h_eqlen)
+  /\ map snd (exec (mkVar EqLen FsReset DupStoredAndLocal) (init_state 1) h_eqlen)
      = [None; Some OOk; None; None; Some OOk; Some OOk]
-  /\ (let st := final (mkVar EqLen FsReset) (init_state 1) h_eqlen in
+  /\ (let st := final (mkVar EqLen FsReset DupStoredAndLocal) (init_state 1) h_eqlen in
       st_tok st = [Some 3]
       /\ cur (nth 0 (st_srcs st) []) 1%Z = Some (mkV 1 13 0 false)
       /\ cur (st_sink st) 1%Z = Some (mkV 1 0 0 true)).
@@ -1317,9 +1324,9 @@ Definition h_fskeep : list op :=
 
 Lemma refuted_fskeep :
   Forall (wf_op own0 1) h_fskeep
-  /\ map snd (exec (mkVar EqFull FsKeep) (init_state 1) h_fskeep)
+  /\ map snd (exec (mkVar EqFull FsKeep DupStoredAndLocal) (init_state 1) h_fskeep)
      = [None; None; Some OOk; Some OFailed; Some OOk]
-  /\ (let st := final (mkVar EqFull FsKeep) (init_state 1) h_fskeep in
+  /\ (let st := final (mkVar EqFull FsKeep DupStoredAndLocal) (init_state 1) h_fskeep in
       st_tok st = [Some 2]
       /\ cur (nth 0 (st_srcs st) []) 1%Z = Some (mkV 1 2 0 false)
       /\ cur (st_sink st) 1%Z = Some (mkV 1 1 0 false)
@@ -1339,8 +1346,8 @@ Qed.
 
 (** the repaired variant on the same two histories *)
 Lemma fixed_on_witnesses :
-  (let st := final (mkVar EqFull FsReset) (init_state 1) h_eqlen in
+  (let st := final (mkVar EqFull FsReset DupLocalElseStored) (init_state 1) h_eqlen in
    cur (st_sink st) 1%Z = cur (nth 0 (st_srcs st) []) 1%Z)
-  /\ (let st := final (mkVar EqFull FsReset) (init_state 1) h_fskeep in
+  /\ (let st := final (mkVar EqFull FsReset DupLocalElseStored) (init_state 1) h_fskeep in
       st_tok st = [Some 2] /\ cur (st_sink st) 1%Z = cur (nth 0 (st_srcs st) []) 1%Z).
 Proof. vm_compute. auto. Qed.
